@@ -52,15 +52,40 @@ Lemma handle_exn_closed m cf x s : s_closed s = false ->
   s_closed (handle_exn (gen_open_handlers m cf) x s) = cf.
 Proof. intros Hs. destruct m, cf, x; cbn; try reflexivity; exact Hs. Qed.
 
+(* ---------------- fault points of the close methods ---------------- *)
+Lemma top_act_closed p a s : s_closed (top_act p s a) = s_closed s || acts_close p [a].
+Proof. destruct a, p as [|b|b]; try destruct b; cbn; destruct (s_closed s); reflexivity. Qed.
+
+Lemma fold_acts_closed p acts : forall s, s_closed (fold_left (top_act p) acts s) = s_closed s || acts_close p acts.
+Proof.
+  induction acts as [|a r IH]; intros s.
+  - cbn. rewrite orb_false_r. reflexivity.
+  - cbn [fold_left]. rewrite IH, top_act_closed. unfold acts_close at 3. cbn [fold_left]. rewrite IH, top_act_closed.
+    cbn [s_closed orb]. rewrite orb_assoc. reflexivity.
+Qed.
+
+(* a stream laspy was told to leave open: whatever statement of a close method raises, no close action has run or runs *)
+Lemma close_faults_keep_open m p : ps_ok p ->
+  forallb (fun e => match e with None => true | Some acts => negb (acts_close p acts) end) (close_faults m false (has_ps p) true) = true.
+Proof. intros Hp. destruct m, p as [|b|b]; cbn in Hp; subst; reflexivity. Qed.
+
+Lemma close_faults_safe_spec m cf p acts j : close_faults_safeb = true -> ps_ok p ->
+  nth_error (close_faults m cf (has_ps p) true) j = Some (Some acts) -> acts_close p acts = cf.
+Proof.
+  intros Hs Hp Hn. unfold close_faults_safeb in Hs. rewrite forallb_forall in Hs.
+  assert (Hm : In m [MR; MW; MA]) by (destruct m; cbn; tauto). specialize (Hs m Hm). rewrite forallb_forall in Hs.
+  assert (Hc : In cf [true; false]) by (destruct cf; cbn; tauto). specialize (Hs cf Hc). rewrite forallb_forall in Hs.
+  assert (Hpp : In p [PNone; PReal true; PNull true]) by (destruct p as [|b|b]; cbn in Hp; subst; cbn; tauto).
+  specialize (Hs p Hpp). rewrite forallb_forall in Hs. specialize (Hs _ (nth_error_In _ _ Hn)). cbn in Hs.
+  apply eqb_prop. exact Hs.
+Qed.
+
 (* ---------------- invariant ---------------- *)
 Definition h_ok (s : stream) (h : handle) : Prop :=
   s_closed s = false /\ h_closefd h = h_declared h /\ ps_ok (h_ps h).
 
 Definition same_own (h h' : handle) : Prop :=
   h_mode h' = h_mode h /\ h_closefd h' = h_closefd h /\ h_declared h' = h_declared h /\ h_file h' = h_file h.
-
-Definition inv (t : st) : Prop :=
-  Forall obs_ok (st_log t) /\ match st_h t with Some h => h_ok (st_s t) h | None => True end.
 
 Lemma same_own_refl h : same_own h h.
 Proof. repeat split. Qed.
@@ -118,7 +143,35 @@ Proof.
   - cbn. split; [repeat split; assumption | repeat split; assumption].
 Qed.
 
-Lemma obs_ok_app l o : Forall obs_ok l -> obs_ok o -> Forall obs_ok (l ++ [o]).
+Lemma op_fault_ok h s : h_ok s h -> h_ok s (op_fault h) /\ same_own h (op_fault h).
+Proof.
+  intros (Hc & Hd & Hp). unfold op_fault. destruct (is_r (h_mode h)).
+  - split; [split; [exact Hc | split; [exact Hd | apply ensure_ps_ok; exact Hp]] | repeat split].
+  - split; [repeat split; assumption | repeat split].
+Qed.
+
+Lemma obs_full_ok o : obs_ok_full o -> obs_ok o.
+Proof.
+  unfold obs_ok_full, obs_ok. intros H Hp Hw. specialize (H Hp Hw).
+  destruct (is_close_fault (o_how o)); [intros Hc; rewrite <- H; exact Hc | exact H].
+Qed.
+
+(* The invariant of a run, in two readings of the log. strict = false: obs_ok (a close method that raises is judged in
+   one direction); strict = true: obs_ok_full (the full iff there too), available when every fault point of the generated
+   close methods still runs the close action. *)
+Section Invariant.
+Variable strict : bool.
+Hypothesis Hstrict : strict = true -> close_faults_safeb = true.
+
+Definition obs_good (o : obs) : Prop := if strict then obs_ok_full o else obs_ok o.
+
+Lemma full_good o : obs_ok_full o -> obs_good o.
+Proof. unfold obs_good. destruct strict; [trivial | apply obs_full_ok]. Qed.
+
+Definition inv (t : st) : Prop :=
+  Forall obs_good (st_log t) /\ match st_h t with Some h => h_ok (st_s t) h | None => True end.
+
+Lemma obs_good_app l o : Forall obs_good l -> obs_good o -> Forall obs_good (l ++ [o]).
 Proof. intros Hl Ho. apply Forall_app. split; [exact Hl | constructor; [exact Ho | constructor]]. Qed.
 
 Lemma end_handle_facts hw via t h : hw <> HPrecondition -> inv t -> st_h t = Some h ->
@@ -129,8 +182,33 @@ Proof.
   unfold end_handle. rewrite gen_exit_closes_all. rewrite andb_false_r. cbn [st_s st_h st_log].
   pose proof (close_handle_closed h (st_s t) Hc Hp) as Hcl. rewrite Hd in Hcl.
   split; [|split; [reflexivity | exact Hcl]].
-  split; [|exact I]. cbn [st_log]. unfold add_obs. apply obs_ok_app; [exact Hl|].
+  split; [|exact I]. cbn [st_log]. unfold add_obs. apply obs_good_app; [exact Hl|]. apply full_good.
   intros _ _. cbn. exact Hcl.
+Qed.
+
+(* the close method itself raises: no handle is left; a stream laspy was told to leave open is open; under `strict`
+   a stream laspy owns is closed *)
+Lemma end_handle_fault_facts via j t h t' : inv t -> st_h t = Some h -> end_handle_fault via j t h = Some t' ->
+  inv t' /\ st_h t' = None /\ (h_declared h = false -> s_closed (st_s t') = false)
+  /\ (strict = true -> s_closed (st_s t') = h_declared h).
+Proof.
+  intros (Hl & Hh) Eh. rewrite Eh in Hh. destruct Hh as (Hc & Hd & Hp).
+  unfold end_handle_fault. rewrite gen_exit_closes_all, andb_false_r.
+  destruct (nth_error (close_faults (h_mode h) (h_closefd h) (has_ps (h_ps h)) true) j) as [[acts|]|] eqn:En; try discriminate.
+  intros H. injection H as <-. cbn [st_s st_h st_log].
+  assert (Hcl : s_closed (fold_left (top_act (h_ps h)) acts (st_s t)) = acts_close (h_ps h) acts).
+  { rewrite fold_acts_closed, Hc. reflexivity. }
+  assert (Hopen : h_declared h = false -> acts_close (h_ps h) acts = false).
+  { intros Hf. rewrite Hd, Hf in En. pose proof (close_faults_keep_open (h_mode h) (h_ps h) Hp) as Hk.
+    rewrite forallb_forall in Hk. specialize (Hk _ (nth_error_In _ _ En)). cbn in Hk.
+    destruct (acts_close (h_ps h) acts); [discriminate | reflexivity]. }
+  assert (Hfull : strict = true -> acts_close (h_ps h) acts = h_declared h).
+  { intros Hs. rewrite <- Hd. exact (close_faults_safe_spec _ _ _ _ _ (Hstrict Hs) Hp En). }
+  split; [|split; [reflexivity | split; [intros Hf; rewrite Hcl; exact (Hopen Hf) | intros Hs; rewrite Hcl; exact (Hfull Hs)]]].
+  split; [|exact I]. unfold add_obs. apply obs_good_app; [exact Hl|].
+  unfold obs_good. destruct strict eqn:Es.
+  - intros _ _. cbn. rewrite Hcl. exact (Hfull eq_refl).
+  - intros _ _. cbn. rewrite Hcl. intros Ht. destruct (h_declared h); [reflexivity|]. rewrite (Hopen eq_refl) in Ht. discriminate.
 Qed.
 
 Lemma do_open_inv declared m cf re f o t : declared = cf -> inv t -> inv (fst (do_open declared m cf re f o t)).
@@ -138,12 +216,13 @@ Proof.
   intros Hdecl (Hl & Hh). unfold do_open.
   destruct (st_h t) as [h|] eqn:Eh; [cbn; split; [exact Hl | rewrite Eh; exact Hh]|].
   destruct (gen_open_pre_assert_seekable m && (s_closed (st_s t) || negb (s_seekable (st_s t)))).
-  - cbn. split; [|exact I]. unfold add_obs. apply obs_ok_app; [exact Hl|]. intros Hne. cbn in Hne. congruence.
+  - cbn. split; [|exact I]. unfold add_obs. apply obs_good_app; [exact Hl|]. apply full_good. intros Hne. cbn in Hne. congruence.
   - destruct (s_closed (st_s t)) eqn:Ec.
-    + cbn. split; [|exact I]. unfold add_obs. apply obs_ok_app; [exact Hl|]. intros _ Hw. cbn in Hw. rewrite Ec in Hw. discriminate.
+    + cbn. split; [|exact I]. unfold add_obs. apply obs_good_app; [exact Hl|]. apply full_good.
+      intros _ Hw. cbn in Hw. rewrite Ec in Hw. discriminate.
     + assert (Hfail : forall x, inv (mkSt (handle_exn (gen_open_handlers m cf) x (st_s t)) None
                                       (add_obs t (handle_exn (gen_open_handlers m cf) x (st_s t)) HFailedOpen declared))).
-      { intros x. split; [|exact I]. unfold add_obs. apply obs_ok_app; [exact Hl|]. intros _ _. cbn.
+      { intros x. split; [|exact I]. unfold add_obs. apply obs_good_app; [exact Hl|]. apply full_good. intros _ _. cbn.
         rewrite (handle_exn_closed m cf x _ Ec). symmetry. exact Hdecl. }
       destruct (is_a m && negb (s_seekable (st_s t))); [apply Hfail|].
       destruct (open_exn m o f re (s_cap (st_s t))) as [x|]; [apply Hfail|].
@@ -153,33 +232,24 @@ Proof.
       * cbn. exact I.
 Qed.
 
-Lemma lasdata_write_stream o t :
-  s_closed (st_s (fst (do_lasdata_write o t))) = s_closed (st_s t) /\ st_h (fst (do_lasdata_write o t)) = st_h t.
-Proof.
-  unfold do_lasdata_write.
-  destruct (s_closed (st_s t) || negb (s_seekable (st_s t))); [split; reflexivity|].
-  destruct (fail_exn MW o); [split; reflexivity|].
-  rewrite gen_exit_closes_all. cbn. split; reflexivity.
-Qed.
-
 Lemma lasdata_write_inv o t : inv t -> inv (fst (do_lasdata_write o t)).
 Proof.
   intros (Hl & Hh).
-  assert (Hobs : forall s', s_closed s' = s_closed (st_s t) -> obs_ok (mkO HLasDataWrite false (negb (s_closed (st_s t))) (s_closed s'))).
-  { intros s' E _ Hw. cbn in *. rewrite E. destruct (s_closed (st_s t)); [discriminate|reflexivity]. }
+  assert (Hobs : forall s', s_closed s' = s_closed (st_s t) -> obs_good (mkO HLasDataWrite false (negb (s_closed (st_s t))) (s_closed s'))).
+  { intros s' E. apply full_good. intros _ Hw. cbn in *. rewrite E. destruct (s_closed (st_s t)); [discriminate|reflexivity]. }
   unfold do_lasdata_write.
   destruct (s_closed (st_s t) || negb (s_seekable (st_s t))).
-  - cbn. split; [apply obs_ok_app; [exact Hl | apply Hobs; reflexivity] | exact Hh].
+  - cbn. split; [apply obs_good_app; [exact Hl | apply Hobs; reflexivity] | exact Hh].
   - destruct (fail_exn MW o).
-    + cbn. split; [apply obs_ok_app; [exact Hl | apply Hobs; reflexivity] | exact Hh].
+    + cbn. split; [apply obs_good_app; [exact Hl | apply Hobs; reflexivity] | exact Hh].
     + rewrite gen_exit_closes_all.
       assert (Hs : close_handle (mkH MW (gen_init_closefd MW gen_lasdata_write_closefd) false PNone f_none 0 false) (st_s t) = st_s t)
         by reflexivity.
       rewrite Hs. cbn [fst st_s st_h st_log].
-      split; [apply obs_ok_app; [exact Hl | apply Hobs; reflexivity] | exact Hh].
+      split; [apply obs_good_app; [exact Hl | apply Hobs; reflexivity] | exact Hh].
 Qed.
 
-Lemma upd_inv t h s : Forall obs_ok (st_log t) -> h_ok s h -> inv (upd t h s).
+Lemma upd_inv t h s : Forall obs_good (st_log t) -> h_ok s h -> inv (upd t h s).
 Proof. intros Hl Hh. split; [exact Hl | exact Hh]. Qed.
 
 Lemma read_las_facts cf f o t : inv t -> st_h t = None -> s_closed (st_s t) = false ->
@@ -205,10 +275,32 @@ Proof.
     rewrite Hc. destruct Hsame as (_ & _ & Hd & _). rewrite Hd. reflexivity.
 Qed.
 
+(* laspy.read whose read() fails because the stream did: the same exits as any other failure of read() *)
+Lemma read_las_fault_facts cf f x t : inv t -> st_h t = None -> s_closed (st_s t) = false ->
+  let t' := fst (step t (EReadLasFault cf f x)) in
+  inv t' /\ st_h t' = None /\ s_closed (st_s t') = cf.
+Proof.
+  intros Hi Eh Ec. cbn [step]. rewrite Eh.
+  pose proof (do_open_inv cf MR (gen_read_las_closefd cf) true f OOk t) as Hopen.
+  rewrite gen_read_las_cf_id in *. specialize (Hopen eq_refl Hi).
+  unfold do_open in *. rewrite Eh in *. rewrite gen_pre_assert_r in *. cbn [andb] in *.
+  rewrite Ec in *. cbn [is_a andb] in *.
+  destruct (open_exn MR OOk f true (s_cap (st_s t))) as [y|].
+  - cbn [fst st_h st_s] in *. split; [exact Hopen | split; [reflexivity | apply handle_exn_closed; exact Ec]].
+  - cbn [fst st_h st_s is_r] in *.
+    set (h0 := mkH MR _ _ _ _ _ _) in *. set (s0 := set_pos _ _) in *.
+    destruct Hopen as (Hl0 & Hh0). cbn [st_h st_s st_log] in Hl0, Hh0.
+    pose proof (op_fault_ok h0 s0 Hh0) as (Hok & Hsame).
+    assert (Hi' : inv (upd (mkSt s0 (Some h0) (st_log t)) (op_fault h0) s0)) by (apply upd_inv; assumption).
+    pose proof (end_handle_facts HBodyRaised true _ (op_fault h0) ltac:(discriminate) Hi' eq_refl) as (Ha & Hb & Hc).
+    split; [exact Ha | split; [exact Hb|]].
+    rewrite Hc. destruct Hsame as (_ & _ & Hd & _). rewrite Hd. reflexivity.
+Qed.
+
 Lemma step_inv t e : inv t -> inv (fst (step t e)).
 Proof.
   intros Hi. pose proof Hi as (Hl & Hh).
-  destruct e as [m cf re f o|n|pos wh| | | |x| | |o|cf f o|p]; cbn [step].
+  destruct e as [m cf re f o|n|pos wh| | | |x| | |o|cf f o|p|x|via j x|cf f x]; cbn [step].
   - apply do_open_inv; [reflexivity | exact Hi].
   - unfold on_reader. destruct (st_h t) as [h|] eqn:Eh; [|exact Hi]. destruct (is_r (h_mode h)); [|exact Hi].
     pose proof (do_read_points_ok n h (st_s t) Hh) as (Hok & _).
@@ -242,6 +334,19 @@ Proof.
   - destruct (s_closed (st_s t) || negb (s_seekable (st_s t))) eqn:E; cbn [fst]; [exact Hi|].
     split; [exact Hl|]. cbn [st_h st_s]. destruct (st_h t) as [h|]; [|exact I].
     destruct Hh as (Hc & Hd & Hp). split; [exact Hc | split; assumption].
+  - unfold on_handle. destruct (st_h t) as [h|] eqn:Eh; [|exact Hi]. cbn [fst].
+    apply upd_inv; [exact Hl | exact (proj1 (op_fault_ok h (st_s t) Hh))].
+  - unfold on_handle. destruct (st_h t) as [h|] eqn:Eh; [|exact Hi].
+    destruct (end_handle_fault via j t h) as [t'|] eqn:Ef; cbn [fst]; [|exact Hi].
+    exact (proj1 (end_handle_fault_facts via j t h t' Hi Eh Ef)).
+  - destruct (st_h t) as [h|] eqn:Eh.
+    + cbn [fst]. exact Hi.
+    + destruct (s_closed (st_s t)) eqn:Ec.
+      * pose proof (do_open_inv cf MR (gen_read_las_closefd cf) true f OOk t) as Hopen.
+        rewrite gen_read_las_cf_id in *. specialize (Hopen eq_refl Hi).
+        unfold do_open in *. rewrite Eh in *. rewrite gen_pre_assert_r in *. cbn [andb] in *. rewrite Ec in *.
+        cbn [fst st_h] in *. exact Hopen.
+      * pose proof (read_las_fault_facts cf f x t Hi Eh Ec) as (Ha & _). cbn [step] in Ha. rewrite Eh in Ha. exact Ha.
 Qed.
 
 Lemma run_inv evs : forall t, inv t -> inv (run t evs).
@@ -252,18 +357,41 @@ Qed.
 
 Lemma init_at_inv c p : inv (init_at c p).
 Proof. split; [constructor | exact I]. Qed.
-Lemma init_inv c : inv (init c).
-Proof. apply init_at_inv. Qed.
+End Invariant.
+
+Lemma lasdata_write_stream o t :
+  s_closed (st_s (fst (do_lasdata_write o t))) = s_closed (st_s t) /\ st_h (fst (do_lasdata_write o t)) = st_h t.
+Proof.
+  unfold do_lasdata_write.
+  destruct (s_closed (st_s t) || negb (s_seekable (st_s t))); [split; reflexivity|].
+  destruct (fail_exn MW o); [split; reflexivity|].
+  rewrite gen_exit_closes_all. cbn. split; reflexivity.
+Qed.
+
+Lemma loose : false = true -> close_faults_safeb = true.
+Proof. discriminate. Qed.
+
+(* the invariant in the reading that needs no hypothesis *)
+Definition inv0 := inv false.
+Definition run_inv0 evs t : inv0 t -> inv0 (run t evs) := run_inv false loose evs t.
+Definition init_at_inv0 c p : inv0 (init_at c p) := init_at_inv false c p.
 
 (* ---------------- the theorems ---------------- *)
 Theorem ownership_iff c p evs : Forall obs_ok (st_log (run (init_at c p) evs)).
-Proof. exact (proj1 (run_inv evs (init_at c p) (init_at_inv c p))). Qed.
+Proof. exact (proj1 (run_inv0 evs (init_at c p) (init_at_inv0 c p))). Qed.
+
+(* the full iff for a close method that raises too, when every fault point of the generated close methods still runs
+   the close action *)
+Theorem ownership_iff_full c p evs : close_faults_safeb = true -> Forall obs_ok_full (st_log (run (init_at c p) evs)).
+Proof. intros Hs. exact (proj1 (run_inv true (fun _ => Hs) evs (init_at c p) (init_at_inv true c p))). Qed.
 
 (* every observation that is not the w-mode seekability assertion satisfies the boolean reading as well *)
 Lemma obs_ok_b o : obs_ok o -> obs_okb o = true.
 Proof.
-  unfold obs_ok, obs_okb. intros H. destruct (o_how o) eqn:E; try reflexivity;
-    (destruct (o_was_open o); [cbn; rewrite H; [apply eqb_reflx | discriminate | reflexivity] | reflexivity]).
+  unfold obs_ok, obs_okb. intros H. destruct (o_how o) eqn:E; try reflexivity; cbn [is_close_fault] in H;
+    (destruct (o_was_open o); [cbn | reflexivity]).
+  all: try (rewrite H; [apply eqb_reflx | discriminate | reflexivity]).
+  destruct (o_closed o); [cbn; apply H; [discriminate | reflexivity | reflexivity] | reflexivity].
 Qed.
 
 Theorem ownership_iff_b c p evs : forallb obs_okb (st_log (run (init_at c p) evs)) = true.
@@ -312,13 +440,13 @@ Theorem handle_gone c p evs e h : is_end e = true -> st_h (run (init_at c p) evs
   st_h (fst (step (run (init_at c p) evs) e)) = None /\
   s_closed (st_s (fst (step (run (init_at c p) evs) e))) = h_declared h /\ h_closefd h = h_declared h.
 Proof.
-  intros He Eh. pose proof (run_inv evs (init_at c p) (init_at_inv c p)) as Hi.
+  intros He Eh. pose proof (run_inv0 evs (init_at c p) (init_at_inv0 c p)) as Hi.
   set (t := run (init_at c p) evs) in *.
   assert (Hd : h_closefd h = h_declared h) by (destruct Hi as (_ & Hh); rewrite Eh in Hh; exact (proj1 (proj2 Hh))).
   destruct e; try discriminate He; cbn [step]; unfold on_handle; rewrite Eh; cbn [fst].
-  - pose proof (end_handle_facts HBodyRaised true t h ltac:(discriminate) Hi Eh) as (_ & A & B). repeat split; assumption.
-  - pose proof (end_handle_facts HExit true t h ltac:(discriminate) Hi Eh) as (_ & A & B). repeat split; assumption.
-  - pose proof (end_handle_facts HClose false t h ltac:(discriminate) Hi Eh) as (_ & A & B). repeat split; assumption.
+  - pose proof (end_handle_facts false loose HBodyRaised true t h ltac:(discriminate) Hi Eh) as (_ & A & B). repeat split; assumption.
+  - pose proof (end_handle_facts false loose HExit true t h ltac:(discriminate) Hi Eh) as (_ & A & B). repeat split; assumption.
+  - pose proof (end_handle_facts false loose HClose false t h ltac:(discriminate) Hi Eh) as (_ & A & B). repeat split; assumption.
 Qed.
 
 (* the closefd a live handle carries is the one its Open event was given: the handle of a run is created by an EOpen *)
@@ -331,8 +459,8 @@ Theorem read_las_closes c p evs cf f o :
   st_h (fst (step (run (init_at c p) evs) (EReadLas cf f o))) = None /\
   s_closed (st_s (fst (step (run (init_at c p) evs) (EReadLas cf f o)))) = cf.
 Proof.
-  intros Eh Ec. pose proof (run_inv evs (init_at c p) (init_at_inv c p)) as Hi.
-  pose proof (read_las_facts cf f o _ Hi Eh Ec) as (_ & A & B). split; assumption.
+  intros Eh Ec. pose proof (run_inv0 evs (init_at c p) (init_at_inv0 c p)) as Hi.
+  pose proof (read_las_facts false loose cf f o _ Hi Eh Ec) as (_ & A & B). split; assumption.
 Qed.
 
 (* ---------------- position ---------------- *)
@@ -542,4 +670,86 @@ Theorem precondition_untouched t m cf re f o : st_h t = None ->
 Proof.
   intros Eh Hp Hs. cbn [step]. unfold do_open. rewrite Eh, Hp, Hs. cbn [negb orb andb].
   rewrite orb_true_r. cbn. split; reflexivity.
+Qed.
+
+(* ---------------- failures of the stream's own methods ---------------- *)
+Lemma run_snoc t evs e : run t (evs ++ [e]) = fst (step (run t evs) e).
+Proof. unfold run. rewrite fold_left_app. reflexivity. Qed.
+
+(* while opening, in any mode: the constructor raises what the stream raised (an Exception or not), one except clause of
+   open_las sees it: no handle, closed iff closefd *)
+Theorem open_fault t m cf re f x : st_h t = None -> s_closed (st_s t) = false ->
+  (gen_open_pre_assert_seekable m = true -> s_seekable (st_s t) = true) ->
+  (is_a m = true -> s_seekable (st_s t) = true) ->
+  let r := step t (EOpen m cf re f (OFault x)) in
+  snd r = RRaised x /\ st_h (fst r) = None /\ s_closed (st_s (fst r)) = cf.
+Proof.
+  intros Eh Ec Hpre Ha r.
+  pose proof (open_outcome t m cf re f (OFault x) Eh Ec Hpre Ha) as Ho.
+  unfold open_exn in Ho. cbn [fail_exn] in Ho. fold r in Ho.
+  split; [exact Ho|]. exact (failed_open t m cf re f (OFault x) x Eh Ec Hpre Ho).
+Qed.
+
+(* under an operation on the handle: the operation raises, the stream is as it was (not closed, whatever closefd), the
+   handle is still there with the closefd it had *)
+Theorem op_fault_keeps t h x : st_h t = Some h ->
+  let r := step t (EOpFault x) in
+  snd r = RRaised x /\ st_s (fst r) = st_s t /\
+  exists h', st_h (fst r) = Some h' /\ h_closefd h' = h_closefd h /\ h_declared h' = h_declared h /\ h_mode h' = h_mode h.
+Proof.
+  intros Eh. cbn [step]. unfold on_handle. rewrite Eh. cbn [fst snd upd st_s st_h].
+  split; [reflexivity | split; [reflexivity|]]. exists (op_fault h). split; [reflexivity|].
+  unfold op_fault. destruct (is_r (h_mode h)); repeat split.
+Qed.
+
+(* ... and when the caller then lets go of the handle (the exception leaves the with block, or it was caught inside and
+   the block is left normally, or close() is called): closed iff closefd *)
+Theorem op_fault_then_gone c p evs x e h : is_end e = true -> st_h (run (init_at c p) evs) = Some h ->
+  let t := fst (step (run (init_at c p) evs) (EOpFault x)) in
+  st_h (fst (step t e)) = None /\ s_closed (st_s (fst (step t e))) = h_declared h.
+Proof.
+  intros He Eh t.
+  destruct (op_fault_keeps _ h x Eh) as (_ & _ & (h' & Eh' & _ & Hd & _)).
+  pose proof (handle_gone c p (evs ++ [EOpFault x]) e h' He) as Hg. rewrite run_snoc in Hg.
+  destruct (Hg Eh') as (A & B & _). split; [exact A | rewrite <- Hd; exact B].
+Qed.
+
+(* inside the close method (with-exit after a body that raised or not, explicit close): the handle is gone; a stream
+   laspy was told to leave open is open; a stream laspy owns is closed provided every fault point of the generated close
+   methods still runs the close action *)
+Theorem close_fault_gone c p evs via j x h : st_h (run (init_at c p) evs) = Some h ->
+  let r := step (run (init_at c p) evs) (EEndFault via j x) in
+  snd r = RRaised x ->
+  st_h (fst r) = None /\ (h_declared h = false -> s_closed (st_s (fst r)) = false)
+  /\ (close_faults_safeb = true -> s_closed (st_s (fst r)) = h_declared h).
+Proof.
+  intros Eh r. subst r. cbn [step]. unfold on_handle. rewrite Eh.
+  destruct (end_handle_fault via j (run (init_at c p) evs) h) as [t'|] eqn:Ef; cbn [fst snd]; [intros _ | discriminate].
+  pose proof (end_handle_fault_facts false loose via j _ h t' (run_inv0 evs _ (init_at_inv0 c p)) Eh Ef) as (_ & A & B & _).
+  split; [exact A | split; [exact B|]]. intros Hs.
+  pose proof (end_handle_fault_facts true (fun _ => Hs) via j _ h t' (run_inv true (fun _ => Hs) evs _ (init_at_inv true c p)) Eh Ef)
+    as (_ & _ & _ & C).
+  exact (C eq_refl).
+Qed.
+
+(* the reader's close (and the point readers' it delegates to) has no statement that uses the stream other than its close:
+   it cannot fail half-way *)
+Theorem reader_close_no_fault_point cf hp ss :
+  gen_close_reader_faults cf hp ss = [] /\ gen_close_uncompressed_faults cf hp ss = [] /\ gen_close_empty_faults cf hp ss = [].
+Proof. repeat split. Qed.
+
+Theorem reader_end_fault_ignored t h via j x : st_h t = Some h -> h_mode h = MR -> step t (EEndFault via j x) = (t, RIgnored).
+Proof.
+  intros Eh Em. cbn [step]. unfold on_handle. rewrite Eh. unfold end_handle_fault. rewrite Em.
+  rewrite gen_exit_closes_all, andb_false_r. cbn [close_faults].
+  rewrite (proj1 (reader_close_no_fault_point _ _ _)). destruct j; reflexivity.
+Qed.
+
+Theorem read_las_fault_closes c p evs cf f x :
+  st_h (run (init_at c p) evs) = None -> s_closed (st_s (run (init_at c p) evs)) = false ->
+  st_h (fst (step (run (init_at c p) evs) (EReadLasFault cf f x))) = None /\
+  s_closed (st_s (fst (step (run (init_at c p) evs) (EReadLasFault cf f x)))) = cf.
+Proof.
+  intros Eh Ec. pose proof (run_inv0 evs (init_at c p) (init_at_inv0 c p)) as Hi.
+  pose proof (read_las_fault_facts false loose cf f x _ Hi Eh Ec) as (_ & A & B). split; assumption.
 Qed.
